@@ -228,3 +228,15 @@ Lemma new_record_is_wire_all_parrots :
   Forall (fun kv => record_of (tparams_of kv) = read_list (tparams_of kv) /\
                     parse (marshal (tparams_of kv)) = Some (tparams_of kv)) advenf_all_specs.
 Proof. unfold advenf_all_specs. repeat constructor; vm_compute; reflexivity. Qed.
+
+(** What the game does NOT let the peer do: DATAGRAM frames above [dgram_cap]. For the Chrome parrots
+    max_datagram_frame_size is 65536 and max_udp_payload_size 1472, the receive buffer 1452: frames of
+    1435..1454 bytes fit what was advertised, but a packet carrying one exceeds the receive buffer and
+    is dropped before any frame is looked at -- no error (so outside "never a locally generated
+    error"), and no delivery either. *)
+Lemma dgram_cap_narrowing :
+  let a := advertised advenf_spec_Chrome_146_IPv4 in
+  (l_dgram a, l_udp a, dgram_cap a) = (65536, 1472, 1434) /\
+  play a (enforced_spec a default_config) [EvDgram 1434] = Fine /\
+  play a (enforced_spec a default_config) [EvDgram 1435] = NonConformant.
+Proof. repeat split. Qed.
